@@ -643,6 +643,10 @@ pub struct Cfg {
     /// collect() from an iterator whose size_hint lower bound is below its real length
     #[serde(default)]
     pub inexact_iter: bool,
+    /// with `inexact_iter`: 0 = the lower bound is 0 (a filter), k > 0 = the iterator announces `len - k` (a partly
+    /// sized iterator, e.g. `sized.chain(filtered)`), upper bound unknown
+    #[serde(default)]
+    pub iter_short: u16,
     /// collections: 0 = futures and outputs with drop glue, 1 = futures without drop glue, 2 = outputs without
     #[serde(default)]
     pub child_kind: u8,
@@ -661,12 +665,28 @@ fn initial_ids(cfg: &Cfg, role: Role) -> Vec<Cid> {
     })
 }
 
-/// `v.into_iter()`, optionally behind a filter that keeps everything but makes the size_hint lower bound 0
-fn it(v: Vec<Cid>, inexact: bool) -> Box<dyn Iterator<Item = Cid>> {
-    if inexact {
-        Box::new(v.into_iter().filter(|_| true))
-    } else {
-        Box::new(v.into_iter())
+/// an honest but inexact iterator: announces `short` items fewer than it will yield, upper bound unknown
+struct Hinted {
+    inner: std::vec::IntoIter<Cid>,
+    short: usize,
+}
+impl Iterator for Hinted {
+    type Item = Cid;
+    fn next(&mut self) -> Option<Cid> {
+        self.inner.next()
+    }
+    fn size_hint(&self) -> (usize, Option<usize>) {
+        (self.inner.len().saturating_sub(self.short), None)
+    }
+}
+
+/// `v.into_iter()`, optionally behind a filter that keeps everything but makes the size_hint lower bound 0, or
+/// behind an iterator that under-announces its length by `short`
+fn it(v: Vec<Cid>, inexact: (bool, u16)) -> Box<dyn Iterator<Item = Cid>> {
+    match inexact {
+        (false, _) => Box::new(v.into_iter()),
+        (true, 0) => Box::new(v.into_iter().filter(|_| true)),
+        (true, k) => Box::new(Hinted { inner: v.into_iter(), short: k as usize }),
     }
 }
 
@@ -701,7 +721,7 @@ fn build_coll<F: ChildFut>(subj: Subj, cfg: &Cfg) -> Box<dyn Subject> {
             }
         });
     }
-    let inexact = cfg.inexact_iter;
+    let inexact = (cfg.inexact_iter, cfg.iter_short);
     match subj {
         Subj::UB => {
             if cfg.ctor == 2 {
@@ -761,9 +781,9 @@ fn build_merge<S: ChildSrc>(subj: Subj, cfg: &Cfg) -> Box<dyn Subject> {
     }
     if subj == Subj::MB {
         let n = ids.len();
-        Box::new(SMB::<S>(sut(|| it(ids, cfg.inexact_iter).map(S::make).collect()), n))
+        Box::new(SMB::<S>(sut(|| it(ids, (cfg.inexact_iter, cfg.iter_short)).map(S::make).collect()), n))
     } else if cfg.ctor == 2 {
-        Box::new(SMU::<S>(sut(|| it(ids, cfg.inexact_iter).map(S::make).collect())))
+        Box::new(SMU::<S>(sut(|| it(ids, (cfg.inexact_iter, cfg.iter_short)).map(S::make).collect())))
     } else {
         Box::new(SMU::<S>(sut(MergeUnbounded::new)))
     }
@@ -812,31 +832,31 @@ pub fn build(subj: Subj, cfg: &Cfg) -> Box<dyn Subject> {
         Subj::JA => {
             let ids = initial_ids(cfg, Role::Fut);
             if cfg.ctor == 3 {
-                Box::new(SJAP(sut(|| join_all(it(ids, cfg.inexact_iter).map(ScriptFut::<PlainND>::new)))))
+                Box::new(SJAP(sut(|| join_all(it(ids, (cfg.inexact_iter, cfg.iter_short)).map(ScriptFut::<PlainND>::new)))))
             } else if cfg.ctor == 4 {
                 w(|x| {
                     for &i in &ids {
                         x.children[i as usize].no_drop_glue = true;
                     }
                 });
-                Box::new(SJAN(sut(|| join_all(it(ids, cfg.inexact_iter).map(NdFut::<Plain>::new)))))
+                Box::new(SJAN(sut(|| join_all(it(ids, (cfg.inexact_iter, cfg.iter_short)).map(NdFut::<Plain>::new)))))
             } else {
-                Box::new(SJA(sut(|| join_all(it(ids, cfg.inexact_iter).map(ScriptFut::<Plain>::new)))))
+                Box::new(SJA(sut(|| join_all(it(ids, (cfg.inexact_iter, cfg.iter_short)).map(ScriptFut::<Plain>::new)))))
             }
         }
         Subj::TJA => {
             let ids = initial_ids(cfg, Role::Fut);
             if cfg.ctor == 3 {
-                Box::new(STJAP(sut(|| try_join_all(it(ids, cfg.inexact_iter).map(ScriptFut::<TryND>::new)))))
+                Box::new(STJAP(sut(|| try_join_all(it(ids, (cfg.inexact_iter, cfg.iter_short)).map(ScriptFut::<TryND>::new)))))
             } else if cfg.ctor == 4 {
                 w(|x| {
                     for &i in &ids {
                         x.children[i as usize].no_drop_glue = true;
                     }
                 });
-                Box::new(STJAN(sut(|| try_join_all(it(ids, cfg.inexact_iter).map(NdFut::<Try>::new)))))
+                Box::new(STJAN(sut(|| try_join_all(it(ids, (cfg.inexact_iter, cfg.iter_short)).map(NdFut::<Try>::new)))))
             } else {
-                Box::new(STJA(sut(|| try_join_all(it(ids, cfg.inexact_iter).map(ScriptFut::<Try>::new)))))
+                Box::new(STJA(sut(|| try_join_all(it(ids, (cfg.inexact_iter, cfg.iter_short)).map(ScriptFut::<Try>::new)))))
             }
         }
     }
